@@ -35,6 +35,8 @@ type Obligation struct {
 	Output  string
 	Script  string
 	Tainted string
+	pre     *factNode // path facts at the point of emission
+	x       *Exec
 }
 
 type pathEnd struct{}
@@ -87,7 +89,7 @@ func (x *Exec) emit(st *State, kind, name, goal string, tags []string, src strin
 	}
 	o := &Obligation{
 		Name: x.shortFn(x.fn) + "#" + name, Func: x.shortFn(x.fn), Kind: kind, Tags: tags, Src: src,
-		Pos: posString(x.v.fset, pos), Path: strings.Join(st.path, " "), Facts: st.factList(), Goal: goal, Expect: "unsat",
+		Pos: posString(x.v.fset, pos), Path: strings.Join(st.path, " "), pre: st.facts, Goal: goal, Expect: "unsat",
 		Tainted: st.tainted,
 	}
 	x.obls = append(x.obls, o)
@@ -294,7 +296,7 @@ func (x *Exec) storeStruct(st *State, ref string, t types.Type, v Val) {
 		} else if isArray(f.Type()) {
 			lf := x.locFnFor(tn, f.Name(), f.Type())
 			a := f.Type().Underlying().(*types.Array)
-			name := typeName(f.Type()) + ".val"
+			name := arrMemName(f.Type())
 			es := "(Array Int " + sortOf(a.Elem()) + ")"
 			st.setH(name, es, store(st.H(name, es), app(quote(lf.name), ref), fv.T))
 		} else {
@@ -317,7 +319,7 @@ func (x *Exec) loadStruct(st *State, ref string, t types.Type) Val {
 		} else if isArray(f.Type()) {
 			lf := x.locFnFor(tn, f.Name(), f.Type())
 			a := f.Type().Underlying().(*types.Array)
-			name := typeName(f.Type()) + ".val"
+			name := arrMemName(f.Type())
 			es := "(Array Int " + sortOf(a.Elem()) + ")"
 			v.Elems = append(v.Elems, term(sel(st.H(name, es), app(quote(lf.name), ref)), es, f.Type()))
 		} else {
@@ -339,7 +341,7 @@ func (x *Exec) load(st *State, p Val, elemT types.Type) Val {
 			return x.loadStruct(st, p.T, elemT)
 		}
 		if a, ok := elemT.Underlying().(*types.Array); ok {
-			name := typeName(elemT) + ".val"
+			name := arrMemName(elemT)
 			es := "(Array Int " + sortOf(a.Elem()) + ")"
 			return term(sel(st.H(name, es), p.T), es, elemT)
 		}
@@ -357,8 +359,18 @@ func (x *Exec) named(st *State, v Val, hint string) Val {
 	if v.K != VTerm {
 		return v
 	}
+	// the same term (same heap version, same location) gets the same name on a path, so that
+	// re-reading an unchanged location yields a syntactically equal value
+	if st.names == nil {
+		st.names = map[string]string{}
+	}
+	if nm, ok := st.names[v.T]; ok {
+		v.T = nm
+		return v
+	}
 	s := x.fresh(hint, v.S)
 	st.assume(eq(s, v.T))
+	st.names[v.T] = s
 	v.T = s
 	x.typeFacts(st, v)
 	return v
@@ -388,7 +400,7 @@ func (x *Exec) storeTo(st *State, p Val, v Val, elemT types.Type) {
 			return
 		}
 		if a, ok := elemT.Underlying().(*types.Array); ok {
-			name := typeName(elemT) + ".val"
+			name := arrMemName(elemT)
 			es := "(Array Int " + sortOf(a.Elem()) + ")"
 			st.setH(name, es, store(st.H(name, es), p.T, v.T))
 			return
@@ -517,7 +529,31 @@ func (x *Exec) step(st *State, ins ssa.Instruction) bool {
 		if c.T == "false" {
 			return x.gotoBlock(st, fr.block.Succs[1])
 		}
-		// fork
+		// fork (infeasible arms are pruned by a quick solver query)
+		tOK, fOK := true, true
+		if st.hasFact(c.T) {
+			fOK = false
+		} else if st.hasFact(not(c.T)) {
+			tOK = false
+		} else if x.forks > 12 {
+			ch := make(chan bool, 1)
+			go func() { ch <- x.feasible(st, c.T) }()
+			fOK = x.feasible(st, not(c.T))
+			tOK = <-ch
+		}
+		x.forks++
+		if !tOK && !fOK {
+			x.paths++
+			return false // the path itself is infeasible
+		}
+		if !tOK {
+			st.assume(not(c.T))
+			return x.gotoBlock(st, fr.block.Succs[1])
+		}
+		if !fOK {
+			st.assume(c.T)
+			return x.gotoBlock(st, fr.block.Succs[0])
+		}
 		other := st.clone()
 		other.assume(not(c.T))
 		other.path = append(other.path, fmt.Sprintf("b%d:F", fr.block.Index))
@@ -584,7 +620,7 @@ func (x *Exec) stepValue(st *State, ins ssa.Instruction, v ssa.Value) bool {
 			set(term(ref, SInt, i.Type()))
 		} else if isArray(t) {
 			z := x.zero(st, t)
-			name := typeName(t) + ".val"
+			name := arrMemName(t)
 			st.setH(name, z.S, store(st.H(name, z.S), ref, z.T))
 			set(term(ref, SInt, i.Type()))
 		} else {
@@ -1005,6 +1041,13 @@ func (x *Exec) convert(st *State, i *ssa.Convert) {
 
 // ---- slices ----
 
+// arrMemName: arrays (locals, embedded array fields) live in the same element memory as slice
+// backing arrays, keyed by their reference.
+func arrMemName(t types.Type) string {
+	a := t.Underlying().(*types.Array)
+	return memName(sortOf(a.Elem()), a.Elem())
+}
+
 func sliceElem(t types.Type) (types.Type, string) {
 	switch u := t.Underlying().(type) {
 	case *types.Slice:
@@ -1033,7 +1076,7 @@ func (x *Exec) indexAddr(st *State, i *ssa.IndexAddr) {
 		es := sortOf(a.Elem())
 		x.safe(st, "nil", x.operandText(i.X), not(eq(base.T, "0")), i.Pos())
 		x.safe(st, "idx", x.operandText(i.X)+"["+x.operandText(i.Index)+"]", and(app("<=", "0", idx.T), app("<", idx.T, num(a.Len()))), i.Pos())
-		fr.vals[i] = Val{K: VFieldPtr, Field: typeName(u.Elem()) + ".val", Base: base.T, Idx: idx.T, ESort: es, Ty: i.Type()}
+		fr.vals[i] = Val{K: VFieldPtr, Field: arrMemName(u.Elem()), Base: base.T, Idx: idx.T, ESort: es, Ty: i.Type()}
 	default:
 		x.errorf("unsupported IndexAddr base %s", i.X.Type())
 		fr.vals[i] = Val{K: VFieldPtr, Field: "mem.Int", Base: "0", Idx: "0", ESort: SInt, Ty: i.Type()}
@@ -1082,13 +1125,17 @@ func (x *Exec) sliceOp(st *State, i *ssa.Slice) {
 		fr.vals[i] = term(s, SInt, i.Type())
 	case *types.Pointer:
 		a := u.Elem().Underlying().(*types.Array)
-		if _, isIface := a.Elem().Underlying().(*types.Interface); !isIface {
-			x.errorf("slicing of array pointers is only supported for variadic interface arguments")
+		n := num(a.Len())
+		if i.High != nil {
+			hi = x.val(st, i.High).T
+		} else {
+			hi = n
 		}
-		// variadic ...interface{} argument pack: content is irrelevant to the callee models
-		r := x.symbolic(st, i.Type(), "varargs")
-		st.assume(and(eq(app("slen", r.T), num(a.Len())), app(">", app("sarr", r.T), "0")))
-		fr.vals[i] = r
+		x.safe(st, "nil", x.operandText(i.X), not(eq(base.T, "0")), i.Pos())
+		x.safe(st, "slice", x.operandText(i.X)+"["+x.sliceText(i)+"]", and(app("<=", "0", lo), app("<=", lo, hi), app("<=", hi, n)), i.Pos())
+		r := x.fresh("sl", SSlice)
+		st.assume(eq(r, app("mkslice", base.T, lo, app("-", hi, lo), app("-", n, lo))))
+		fr.vals[i] = term(r, SSlice, i.Type())
 	default:
 		x.errorf("unsupported slice base")
 		fr.vals[i] = x.symbolic(st, i.Type(), "sl")
